@@ -527,26 +527,24 @@ theorem neg_one_eq : I64.neg (1 : Int) = -1 := by decide
 arithmetic with `omega`, so an equivalent rewrite of the test (`extAt >= 0`) re-proves while a different test does not; everything
 below uses only these three facts. -/
 
-/-- a match after an index has been recorded: the "multiple extensions" error -/
-theorem step_found (a i : Int) (ha : 0 ≤ a) : Gen.removeExtensionStep a i true = none := by
+/-- closes the goals left after unfolding the regenerated loop body and splitting its `if`s, whatever their nesting
+(`if m { if set {err}; … }`, `if !m { continue }; if set {err}; …`) and whichever equivalent test is used for "already set" -/
+macro "loop_fact" : tactic => `(tactic| (
   unfold Gen.removeExtensionStep
-  simp only [if_true, neg_one_eq]
-  split
-  · rfl
-  · rename_i hc; exfalso; simp only [decide_eq_true_eq] at hc; omega
+  simp only [neg_one_eq, Bool.not_true, Bool.not_false, Bool.false_eq_true, if_true, if_false]
+  repeat' split
+  all_goals first
+    | rfl
+    | (exfalso; simp only [decide_eq_true_eq, Bool.not_eq_true', Bool.false_eq_true, decide_eq_false_iff_not] at *; omega)))
+
+/-- a match after an index has been recorded: the "multiple extensions" error -/
+theorem step_found (a i : Int) (ha : 0 ≤ a) : Gen.removeExtensionStep a i true = none := by loop_fact
 
 /-- the first match records its index -/
-theorem step_first (i : Int) : Gen.removeExtensionStep (-1) i true = some i := by
-  unfold Gen.removeExtensionStep
-  simp only [if_true, neg_one_eq]
-  split
-  · rename_i hc; exfalso; simp only [decide_eq_true_eq] at hc; omega
-  · rfl
+theorem step_first (i : Int) : Gen.removeExtensionStep (-1) i true = some i := by loop_fact
 
 /-- no match: nothing changes -/
-theorem step_other (a i : Int) : Gen.removeExtensionStep a i false = some a := by
-  unfold Gen.removeExtensionStep
-  simp
+theorem step_other (a i : Int) : Gen.removeExtensionStep a i false = some a := by loop_fact
 
 /-- the test after the loop -/
 theorem absent_iff (a : Int) (ha : a = -1 ∨ 0 ≤ a) : Gen.removeExtensionAbsent a = true ↔ a = -1 := by
